@@ -55,6 +55,28 @@ class RefConstraints:
         return sorted((r, repr(p)) for r, p in self.items)
 
 
+def effective_bounds(P, bounds):
+    """The enclosure the library will work with: user bounds where given, otherwise the documented cheap
+    enclosure (sum of negative / positive coefficients of the BOOLEAN form).  Used only to cap the number of
+    slack ancillas a generated call can create (one per unit of range for unary slack)."""
+    from .refpoly import SPIN
+    B = P.to_bool() if P.kind == SPIN else P
+    lo = hi = B.offset()
+    for k, v in B.t.items():
+        if not k:
+            continue
+        if v < 0:
+            lo += v
+        else:
+            hi += v
+    if bounds:
+        if bounds[0] is not None:
+            lo = Fraction(bounds[0])
+        if bounds[1] is not None:
+            hi = Fraction(bounds[1])
+    return lo, hi
+
+
 def check_penalty(H_before, H_after, P, rel, lam, issued, warned_unsat, max_bits=14):
     """The exact penalty oracle of C02/C03 on the delta observed in a live model.
 
